@@ -28,6 +28,8 @@ func scenarios(tier string) []svc.Scenario {
 		{Name: "views-and-merges", Program: []string{"import:P1", "import:P2", "view.open:v1", "import:P3", "view.open:v2", "view.release:v1", "import:P4"}},
 		{Name: "tag-edit", Program: []string{"addtag:tag/p=cport:1", "import:P1", "updtag:tag/p=sport:80", "import:P2", "deltag:tag/p"}},
 		{Name: "out-of-order-reset", Program: []string{"import:P1", "addtag:tag/p=cport:1", "import:P0", "import:P2"}},
+		// a cached stream is queued again (new match of the tag) and extended while that job waits
+		{Name: "converter-requeue-then-extension", Converter: true, Program: []string{"import:P1", "addtag:tag/p=cport:1", "converters:tag/p=conv", "import:P2", "import:P3"}},
 		{Name: "converter", Converter: true, Program: []string{"import:P1", "addtag:tag/p=cport:1", "converters:tag/p=conv", "import:P3", "converters:tag/p="}},
 	}
 	if tier == "thorough" {
